@@ -8,22 +8,28 @@ C09 — a sub-strategy's price index is the index of the same definition backtes
 
 Code: `StrategyBase.setup` (core.py l.565-600) gives every non-root strategy a deep-copied shadow ("paper")
 copy, makes it its own root, sets it up with the same data and funds it with 1 000 000; the tail of
-`StrategyBase.update` (l.845-853) steps that copy `if newpt: paper.update(date); if not paper.bankrupt:
-paper.run(); paper.update(date)` and sets `self._price = self._paper.price`; `Backtest.run`
+`StrategyBase.update` (l.857-868) steps that copy `if newpt: paper.update(date); if inow != 0 and not
+paper.bankrupt: paper.run(); paper.update(date)` and sets `self._price = self._paper.price`; `Backtest.run`
 (backtest.py l.218-261) is `adjust(capital); update(dates[0]); for dt in dates[1:]: update(dt);
 if not bankrupt: run(); update(dt)`.
 
 Model (`Bt.Engine.Backtest`): `btDay` = the loop body, `btLoop` = the loop, `btRun` = `Backtest.run` after
-`setup`; `paperStep` / `paperUpdates` = the shadow copy under the `update(date)` calls the child receives;
+`setup`; `paperDay` = one step of the shadow copy (row 0: `updRoot`, any other row: `btDay`), `paperLoop`,
+`paperStep` / `paperUpdates` = the shadow copy under the `update(date)` calls the child receives;
 `clockDates calls now` = the dates on which the child's clock changes.  `run d w` is `Strategy.run()` at
 row `d` (any function, may raise).  A paper-traded strategy's price is `paperPx` (`stratRows`).
 
-The one difference between the two drivers: `Backtest.run` does **not** call `run()` on the synthetic first
-row `dates[0]`, `StrategyBase.update` does (the child's first update is a clock change like any other).
-The two coincide when `run()` leaves the tree as it is on that row — which is what a calendar scheduler at
-the head of the stack guarantees (`gated_stack_noop`, `calendar_gate_closed_on_synthetic_row`); for a
-head that does act on the synthetic row (`RunOnce`, no scheduler at all) they differ
-(`ungated_run_differs`): the documented out-of-scope case of the property.
+**The two drivers are the same driver.**  `Backtest.run` does not call `run()` on the first row `dates[0]` of
+the data (the dummy row a `Backtest` prepends), and neither does `StrategyBase.update` on the shadow copy
+(`inow != 0`).  Hence the main theorem `paper_eq_standalone` holds for EVERY `run` - counting schedulers
+(`RunOnce`, `RunEveryNPeriods`, `RunAfterDays`), stacks without any scheduler, `run_always` algos included -
+with no hypothesis on the algos and none on the tree.
+
+(History: before the repair of `StrategyBase.update` the shadow copy was given the whole loop body on row 0
+too.  The theorem then needed "`run()` leaves the tree as it is on row 0" - true of calendar-gated stacks
+(`gated_stack_noop`, `calendar_gate_closed_on_synthetic_row`, kept below as facts about those stacks) - and a
+sub-strategy headed by `RunOnce` had a different index nested than stand-alone: `unrepaired_stepping_differs`
+is the Lean witness of that defect, `ungated_index_equal` the same instance under the repaired stepping.)
 -/
 set_option linter.unusedSectionVars false
 namespace Bt.C09
@@ -68,20 +74,34 @@ theorem w0Q_noDust : P08.NoDust cfgQ w0Q.root := by
   simp only [w0Q, P08.noDust_strat, P08.noDust_sec, P08.NoDustL]
   decide +kernel
 
-/-! ### (1) the shadow copy is stepped once per change of the child's clock, with the loop body of
-    `Backtest.run` — whatever the parent does to the real child -/
+/-! ### (1) the shadow copy is stepped once per change of the child's clock — an update on row 0, the loop
+    body of `Backtest.run` on every other row — whatever the parent does to the real child -/
 
 /-- For every list of `update(date)` calls the child receives (any repetitions) and every start clock, the
-    shadow copy ends where the loop of `Backtest.run` over the child's clock dates ends — including raising
+    shadow copy ends where one step (`paperDay`) per clock date of the child ends — including raising
     the same error.  Neither the real child's cash nor anything its parent allocates occurs. -/
 theorem paperUpdates_eq_clock (cfg : Cfg K) (run : RunFn K) (calls : List Nat) (now : Option Nat)
     (pw : World K) :
-    paperUpdates cfg run calls now pw = btLoop cfg run (clockDates calls now) pw :=
+    paperUpdates cfg run calls now pw = paperLoop cfg run (clockDates calls now) pw :=
   P09.paperUpdates_eq_clock cfg run calls now pw
 
+/-- one step: `update` on row 0, `update; if not bankrupt: run; update` on any other row -/
+theorem paperDay_rows (cfg : Cfg K) (run : RunFn K) (pw : World K) :
+    paperDay cfg run 0 pw = updRoot cfg 0 pw ∧ ∀ d, d ≠ 0 → paperDay cfg run d pw = btDay cfg run d pw :=
+  ⟨P09.paperDay_zero cfg run pw, fun _ hd => P09.paperDay_pos cfg run hd pw⟩
+
+/-- a clock that starts on row 0 and never returns to it: one `update(0)`, then the loop of `Backtest.run`
+    over the other clock dates -/
+theorem paperLoop_from_row0 (cfg : Cfg K) (run : RunFn K) (ds : List Nat) (pw : World K)
+    (hpos : ∀ d ∈ ds, d ≠ 0) :
+    paperLoop cfg run (0 :: ds) pw = (updRoot cfg 0 pw).bind (btLoop cfg run ds) :=
+  P09.paperLoop_zero_cons cfg run ds pw hpos
+
 example : clockDates callsQ none = [0, 1, 2, 3] := by decide
-example (pw : World Rat) : paperUpdates cfgQ runQ callsQ none pw = btLoop cfgQ runQ [0, 1, 2, 3] pw :=
-  paperUpdates_eq_clock cfgQ runQ callsQ none pw
+example (pw : World Rat) : paperUpdates cfgQ runQ callsQ none pw =
+    (updRoot cfgQ 0 pw).bind (btLoop cfgQ runQ [1, 2, 3]) := by
+  rw [paperUpdates_eq_clock cfgQ runQ callsQ none pw]
+  exact paperLoop_from_row0 cfgQ runQ [1, 2, 3] pw (by decide)
 /-- … and on `w0Q` funded with 1000 the eight calls leave the index at 110 -/
 example : ((opAdjust w0Q [] 1000 true true).bind (P09.paperUpdatesG updQ runQ callsQ none)).toOption.map
     World.price = some 110 := by decide +kernel
@@ -91,7 +111,7 @@ example : ((opAdjust w0Q [] 1000 true true).bind (P09.paperUpdatesG updQ runQ ca
     of events — `update(d)` calls interleaved with arbitrary operations on the real child (`P09.ChildEv.op`:
     `adjust`, `allocate`, `rebalance`, …).  Two such histories, with different real children, different
     operations, different `update`s, whose clocks change on the same dates leave the same shadow copy,
-    and it is the stand-alone loop over those dates. -/
+    and it is the copy stepped once per clock date. -/
 theorem paper_indep_of_child {σ₁ σ₂ : Type} (cfg : Cfg K) (run : RunFn K)
     (upd₁ : Nat → σ₁ → Except Err σ₁) (upd₂ : Nat → σ₂ → Except Err σ₂)
     (evs₁ : List (P09.ChildEv σ₁)) (evs₂ : List (P09.ChildEv σ₂))
@@ -101,7 +121,7 @@ theorem paper_indep_of_child {σ₁ σ₂ : Type} (cfg : Cfg K) (run : RunFn K)
     (h₁ : P09.childRun cfg run upd₁ evs₁ st₁ = .ok st₁')
     (h₂ : P09.childRun cfg run upd₂ evs₂ st₂ = .ok st₂') :
     st₁'.paper = st₂'.paper ∧
-      btLoop cfg run (clockDates (P09.updDates evs₁) st₁.now) st₁.paper = .ok st₁'.paper := by
+      paperLoop cfg run (clockDates (P09.updDates evs₁) st₁.now) st₁.paper = .ok st₁'.paper := by
   have e₁ := P09.childRun_paper cfg run upd₁ evs₁ st₁ st₁' h₁
   have e₂ := P09.childRun_paper cfg run upd₂ evs₂ st₂ st₂' h₂
   rw [P09.paperUpdates_eq_clock] at e₁ e₂
@@ -116,34 +136,39 @@ example : ∃ pw st₁' st₂',
     P09.childRun cfgQ runQ (fun _ (c : Rat) => .ok c) [.update 0] ⟨0, none, pw⟩ = .ok st₂' ∧
     st₁'.real = 750 ∧ st₂'.real = 0 ∧ st₁'.paper = st₂'.paper := by
   have h0 : ((opAdjust w0Q [] 1000 true true).bind fun pw =>
-      (P09.btDayG updQ runQ 0 pw).map fun _ => ()).toOption.isSome = true := by decide +kernel
+      (updQ 0 pw).map fun _ => ()).toOption.isSome = true := by decide +kernel
   cases hp : opAdjust w0Q [] 1000 true true with
   | error e => rw [hp] at h0; cases h0
   | ok pw =>
     rw [hp] at h0
-    cases hd : P09.btDayG updQ runQ 0 pw with
+    cases hd : updQ 0 pw with
     | error e => simp [hd, Except.toOption, Except.map] at h0
     | ok pw' =>
-      have hs := P09.btDayF_sound (cfg := cfgQ) (f := 2) hd
+      have hs : paperDay cfgQ runQ 0 pw = .ok pw' := by
+        rw [P09.paperDay_zero]; exact P08.updRootF_sound hd
       refine ⟨pw, ⟨750, some 0, pw'⟩, ⟨0, some 0, pw'⟩, ?_, ?_, rfl, rfl, rfl⟩
       · simp [P09.childRun, P09.childStep, paperStep, hs, Except.map]
         norm_num
       · simp [P09.childRun, P09.childStep, paperStep, hs, Except.map]
 
-/-- the shadow copy of a run is the stand-alone loop over the clock dates of its update events -/
+/-- the shadow copy of a run is the copy stepped once per clock date of its update events -/
 theorem childRun_paper (σ : Type) (cfg : Cfg K) (run : RunFn K) (upd : Nat → σ → Except Err σ)
     (evs : List (P09.ChildEv σ)) (st st' : P09.ChildSt σ K) (h : P09.childRun cfg run upd evs st = .ok st') :
-    btLoop cfg run (clockDates (P09.updDates evs) st.now) st.paper = .ok st'.paper := by
+    paperLoop cfg run (clockDates (P09.updDates evs) st.now) st.paper = .ok st'.paper := by
   rw [← P09.paperUpdates_eq_clock]; exact P09.childRun_paper cfg run upd evs st st' h
 
 example : clockDates (P09.updDates ([.update 0, .op (fun c => .ok (c + 500)), .update 0, .update 2] :
     List (P09.ChildEv Rat))) none = [0, 2] := by decide
 
-/-! ### (2) a gated `run` on the synthetic row -/
+/-! ### (2) a `run` that is silent on a row: the loop body is then one update
 
-/-- If `run()` leaves the tree as it found it on the synthetic row `d0` (what a calendar scheduler at the
-    head of the stack guarantees), the loop body `update; if not bankrupt: run; update` on that row is the
-    single `update(dates[0])` of `Backtest.run`.  In the branch where the first update finds the tree
+    (No longer a hypothesis of the main theorem - since the repair the shadow copy is not run on row 0 at all.  Kept
+    as a fact about the loop body on any row: it is why, before the repair, calendar-gated sub-strategies agreed with
+    their stand-alone backtests although the copy was run on row 0.) -/
+
+/-- If `run()` leaves the tree as it found it on a row `d0` (what a closed scheduler at the
+    head of the stack guarantees), the loop body `update; if not bankrupt: run; update` on that row is a
+    single `update`.  In the branch where the first update finds the tree
     bankrupt `run` is not called at all (no hypothesis on it).  `NoDust` is the hypothesis of C08
     (`updRoot_idem`): the second update of the same row is then the identity. -/
 theorem synthetic_row_noop (cfg : Cfg K) (htol : 0 < cfg.tol) (run : RunFn K) (d0 : Nat) (pw0 : World K)
@@ -184,23 +209,23 @@ example : ∃ w1, updRoot cfgQ 0 w0Q = .ok w1 ∧ w1.bankrupt = false ∧ P08.No
 
 /-! ### (3) the shadow copy is the stand-alone backtest -/
 
-/-- **Main theorem.**  `pw0` is the shadow copy after `setup`, `w0` the stand-alone tree after `setup`; they
-    are equal as values (deep copy of the same definition, same data).  Both are funded with the same
+/-- **Main theorem — for EVERY `run`.**  `pw0` is the shadow copy after `setup`, `w0` the stand-alone tree after
+    `setup`; they are equal as values (deep copy of the same definition, same data).  Both are funded with the same
     capital `c` (`adjust(c)`; the code uses 1 000 000 for the shadow copy, which is also `Backtest`'s
     default).  During the parent's backtest the child receives the `update(date)` calls `calls`, and its
-    clock therefore runs through `d0 :: ds` — the date list of the stand-alone backtest, synthetic row
-    first.  `run` is silent on the synthetic row.  Then the shadow copy ends in exactly the state the
-    stand-alone backtest ends in; if one raises so does the other, with the same error. -/
-theorem paper_eq_standalone (cfg : Cfg K) (htol : 0 < cfg.tol) (run : RunFn K) (c : K)
-    (calls : List Nat) (d0 : Nat) (ds : List Nat) (pw0 w0 : World K) (hcopy : pw0 = w0)
-    (hnd : P08.NoDust cfg w0.root) (hclock : clockDates calls none = d0 :: ds)
-    (hgate : ∀ w w1, opAdjust w0 [] c true true = .ok w → updRoot cfg d0 w = .ok w1 →
-      w1.bankrupt = false → run d0 w1 = .ok w1) :
+    clock therefore runs through `0 :: ds` — the date list of the stand-alone backtest, the dummy row 0
+    first, never again (`hpos`; the dates of a run increase).  Then the shadow copy ends in exactly the state the
+    stand-alone backtest ends in; if one raises so does the other, with the same error.
+    There is NO hypothesis on `run` (calendar schedulers, counting schedulers, no scheduler at all, raising
+    algos), none on the tree (`NoDust`, `TOL` are gone), none on the real child or its parent. -/
+theorem paper_eq_standalone (cfg : Cfg K) (run : RunFn K) (c : K)
+    (calls : List Nat) (ds : List Nat) (pw0 w0 : World K) (hcopy : pw0 = w0)
+    (hclock : clockDates calls none = 0 :: ds) (hpos : ∀ d ∈ ds, d ≠ 0) :
     (opAdjust pw0 [] c true true).bind (paperUpdates cfg run calls none) =
-      btRun cfg run c (d0 :: ds) w0 := by
-  subst hcopy; exact P09.paper_eq_standalone_aux htol hnd hclock hgate
+      btRun cfg run c (0 :: ds) w0 := by
+  subst hcopy; exact P09.paper_eq_standalone_aux hclock hpos
 
-/-- hypotheses hold and both sides succeed on concrete data: eight calls against the dates `[0,1,2,3]`;
+/-- both sides succeed on concrete data: eight calls against the dates `[0,1,2,3]`;
     the common index is 100, 100, 105, 110 -/
 example : ∃ w', (opAdjust w0Q [] 1000 true true).bind (paperUpdates cfgQ runQ callsQ none) = .ok w' ∧
     btRun cfgQ runQ 1000 [0, 1, 2, 3] w0Q = .ok w' ∧ w'.price = 110 ∧
@@ -214,30 +239,27 @@ example : ∃ w', (opAdjust w0Q [] 1000 true true).bind (paperUpdates cfgQ runQ 
     simp only [Except.toOption, Option.map_some, Option.some.injEq, Prod.mk.injEq] at h1
     have hb := P09.btRunF_sound h
     refine ⟨w', ?_, hb, h1.1, h1.2⟩
-    rw [paper_eq_standalone cfgQ (by decide +kernel) runQ 1000 callsQ 0 [1, 2, 3] w0Q w0Q rfl w0Q_noDust
-      (by decide) (fun _ _ _ _ _ => rfl)]
+    rw [paper_eq_standalone cfgQ runQ 1000 callsQ [1, 2, 3] w0Q w0Q rfl (by decide) (by decide)]
     exact hb
 
-/-- **Date for date.**  For every prefix `d0 :: ds'` of the date list there is a moment of the parent's
+/-- **Date for date.**  For every prefix `0 :: ds'` of the date list there is a moment of the parent's
     backtest (a prefix `calls1` of the calls, after which the child's clock has run through exactly
-    `d0 :: ds'`) at which the shadow copy is the stand-alone backtest run up to that date — the whole
+    `0 :: ds'`) at which the shadow copy is the stand-alone backtest run up to that date — the whole
     state, hence its price (`World.price`, what the child then takes as its own price) and the recorded
-    price series. -/
-theorem child_index_eq (cfg : Cfg K) (htol : 0 < cfg.tol) (run : RunFn K) (c : K)
-    (calls : List Nat) (d0 : Nat) (ds : List Nat) (pw0 w0 : World K) (hcopy : pw0 = w0)
-    (hnd : P08.NoDust cfg w0.root) (hclock : clockDates calls none = d0 :: ds)
-    (hgate : ∀ w w1, opAdjust w0 [] c true true = .ok w → updRoot cfg d0 w = .ok w1 →
-      w1.bankrupt = false → run d0 w1 = .ok w1)
+    price series.  Every `run`. -/
+theorem child_index_eq (cfg : Cfg K) (run : RunFn K) (c : K)
+    (calls : List Nat) (ds : List Nat) (pw0 w0 : World K) (hcopy : pw0 = w0)
+    (hclock : clockDates calls none = 0 :: ds) (hpos : ∀ d ∈ ds, d ≠ 0)
     (ds' : List Nat) (hpre : ds' <+: ds) :
-    ∃ calls1, calls1 <+: calls ∧ clockDates calls1 none = d0 :: ds' ∧
+    ∃ calls1, calls1 <+: calls ∧ clockDates calls1 none = 0 :: ds' ∧
       (opAdjust pw0 [] c true true).bind (paperUpdates cfg run calls1 none) =
-        btRun cfg run c (d0 :: ds') w0 ∧
+        btRun cfg run c (0 :: ds') w0 ∧
       ((opAdjust pw0 [] c true true).bind (paperUpdates cfg run calls1 none)).map World.price =
-        (btRun cfg run c (d0 :: ds') w0).map World.price ∧
+        (btRun cfg run c (0 :: ds') w0).map World.price ∧
       ((opAdjust pw0 [] c true true).bind (paperUpdates cfg run calls1 none)).map P09.rootRPrice =
-        (btRun cfg run c (d0 :: ds') w0).map P09.rootRPrice := by
+        (btRun cfg run c (0 :: ds') w0).map P09.rootRPrice := by
   subst hcopy
-  obtain ⟨calls1, h1, h2, h3⟩ := P09.child_index_eq_aux htol hnd hclock hgate ds' hpre
+  obtain ⟨calls1, h1, h2, h3⟩ := P09.child_index_eq_aux (run := run) (c := c) (w0 := pw0) hclock hpos ds' hpre
   exact ⟨calls1, h1, h2, h3, by rw [h3], by rw [h3]⟩
 
 /-- the prefix `[0, 1, 2]` of `[0, 1, 2, 3]`: reached after the calls `[0, 0, 1, 1, 1, 2]`; index 105 there -/
@@ -247,17 +269,15 @@ example : [1, 2] <+: [1, 2, 3] ∧ [0, 0, 1, 1, 1, 2] <+: callsQ ∧
   ⟨by decide, by decide, by decide, by decide +kernel⟩
 
 /-- Conversely, at every moment of the parent's backtest (after any non-empty prefix `calls1` of the calls)
-    the shadow copy is the stand-alone backtest over the dates the child's clock has seen so far. -/
-theorem child_index_eq_at_every_call (cfg : Cfg K) (htol : 0 < cfg.tol) (run : RunFn K) (c : K)
-    (calls : List Nat) (d0 : Nat) (ds : List Nat) (pw0 w0 : World K) (hcopy : pw0 = w0)
-    (hnd : P08.NoDust cfg w0.root) (hclock : clockDates calls none = d0 :: ds)
-    (hgate : ∀ w w1, opAdjust w0 [] c true true = .ok w → updRoot cfg d0 w = .ok w1 →
-      w1.bankrupt = false → run d0 w1 = .ok w1)
+    the shadow copy is the stand-alone backtest over the dates the child's clock has seen so far.  Every `run`. -/
+theorem child_index_eq_at_every_call (cfg : Cfg K) (run : RunFn K) (c : K)
+    (calls : List Nat) (ds : List Nat) (pw0 w0 : World K) (hcopy : pw0 = w0)
+    (hclock : clockDates calls none = 0 :: ds) (hpos : ∀ d ∈ ds, d ≠ 0)
     (calls1 : List Nat) (hpre : calls1 <+: calls) (hne : calls1 ≠ []) :
-    ∃ ds', ds' <+: ds ∧ clockDates calls1 none = d0 :: ds' ∧
+    ∃ ds', ds' <+: ds ∧ clockDates calls1 none = 0 :: ds' ∧
       (opAdjust pw0 [] c true true).bind (paperUpdates cfg run calls1 none) =
-        btRun cfg run c (d0 :: ds') w0 := by
-  subst hcopy; exact P09.child_index_eq_calls_aux htol hnd hclock hgate calls1 hpre hne
+        btRun cfg run c (0 :: ds') w0 := by
+  subst hcopy; exact P09.child_index_eq_calls_aux hclock hpos calls1 hpre hne
 
 example : [0, 0, 1] <+: callsQ ∧ [0, 0, 1] ≠ [] ∧ clockDates [0, 0, 1] none = [0, 1] ∧ [1] <+: [1, 2, 3] := by
   decide
@@ -307,7 +327,7 @@ theorem parent_sees_child_price (cfg : Cfg K) (bo fi : Bool) (acc : Acc K) (sd :
 example : (accAdd true (⟨1, 2, 3, 4⟩ : Acc Rat) (.strat { stratP with value := 50, price := 7 } [])).val = 51 := by
   decide +kernel
 
-/-! ### (5) calendar-gated stacks satisfy the gate hypothesis -/
+/-! ### (5) calendar-gated stacks are silent on row 0 (facts about those stacks; no longer a hypothesis of (3)) -/
 
 open Bt.Stack in
 /-- An algo stack whose first algo returns False without touching the state, and none of whose later algos
@@ -340,7 +360,7 @@ example : (P09.periodGate .monthly C12.startMode C12.sampleIdx (some (C12.d 2012
   calendar_gate_closed_on_synthetic_row .monthly C12.startMode _ _ C12.sampleIdx_strictInc .typeError 7
 
 open Bt.Stack Bt.Sched Bt.Cal in
-/-- Hence hypothesis `hgate` of (2)/(3) holds for every strategy whose stack is headed by a calendar
+/-- Hence the hypothesis `hgate` of (2) holds for every strategy whose stack is headed by a calendar
     scheduler and contains no `run_always` algo: on the row whose timestamp is the first label of the index
     `Strategy.run()` returns the tree as it is.  (`stamp d` = the timestamp of row `d`; the strategy's own
     stack only — a child strategy of the shadow copy has its own shadow copy and is covered by the same
@@ -368,9 +388,9 @@ example (w : World Rat) :
   calendar_gated_run_noop (fun _ => Err.badPath) .monthly C12.startMode _ _ C12.sampleIdx_strictInc .typeError
     (fun d => C12.sampleIdx[d]?) (fun _ => [buyAlgo]) 0 rfl (by simp [buyAlgo, Stack.RA.on]) w
 
-/-! ### (6) the gate hypothesis is needed -/
+/-! ### (6) a head that acts on its first call (`RunOnce`, no scheduler): the repaired defect -/
 
-/-- a tree whose synthetic row carries a price (10, then 20 on the first real date) -/
+/-- a tree whose dummy row carries a price (10, then 20 on the first real date) -/
 def w0U : World Rat := ⟨.strat stratP [.sec { secP with prices := [some 10, some 20, some 20, some 20] }], false⟩
 
 /-- a stack without a calendar head (or headed by `RunOnce`): it acts on its first call, whatever the row -/
@@ -382,11 +402,11 @@ def posU (w : World Rat) : Option Rat :=
   | .strat _ (.sec s :: _) => some s.position
   | _ => none
 
-/-- **Out of scope of the property (non-calendar heads).**  With a `run` that acts on the synthetic row the
-    shadow copy's first step is not the stand-alone backtest's `update(dates[0])`: here the shadow copy buys
-    50 units on the synthetic row at 10 while the stand-alone backtest cannot trade before row 1 … -/
+/-- With a `run` that acts on row 0 the loop body on that row is not the `update(dates[0])` of `Backtest.run`:
+    the loop body buys 50 units on row 0 at 10 while the stand-alone backtest cannot trade before row 1.  This is
+    why the shadow copy must not be given the loop body on row 0 (and since the repair it is not: `paperDay_rows`). -/
 theorem ungated_run_differs : ∃ pw0 : World Rat, 0 < cfgQ.tol ∧ P08.NoDust cfgQ pw0.root ∧
-    btDay cfgQ runU 0 pw0 ≠ updRoot cfgQ 0 pw0 := by
+    btDay cfgQ runU 0 pw0 ≠ updRoot cfgQ 0 pw0 ∧ paperDay cfgQ runU 0 pw0 = updRoot cfgQ 0 pw0 := by
   have h0 : ((opAdjust w0U [] 1000 true true).bind fun pw =>
       (P09.btDayG updQ runU 0 pw).bind fun a => (updQ 0 pw).map fun b => (posU a, posU b)).toOption
         = some (some 50, some 0) := by decide +kernel
@@ -397,7 +417,7 @@ theorem ungated_run_differs : ∃ pw0 : World Rat, 0 < cfgQ.tol ∧ P08.NoDust c
   | error e => rw [hp] at h0; cases h0
   | ok pw =>
     rw [hp] at h0
-    refine ⟨pw, by decide +kernel, (P09.opAdjust_noDust hp).2 hnd, fun heq => ?_⟩
+    refine ⟨pw, by decide +kernel, (P09.opAdjust_noDust hp).2 hnd, fun heq => ?_, P09.paperDay_zero cfgQ runU pw⟩
     cases ha : P09.btDayG updQ runU 0 pw with
     | error e => simp [ha, Except.toOption, Except.bind] at h0
     | ok a =>
@@ -409,15 +429,16 @@ theorem ungated_run_differs : ∃ pw0 : World Rat, 0 < cfgQ.tol ∧ P08.NoDust c
         simp only [ha, hb, Except.toOption, Except.bind, Except.map, Option.some.injEq, Prod.mk.injEq] at h0
         exact absurd (h0.1.symm.trans h0.2) (by decide +kernel)
 
-/-- `runU` is not gated: on the synthetic row it trades -/
+/-- `runU` is not gated: on row 0 it would trade -/
 example (w : World Rat) : runU 0 w = opAllocate cfgQ w [0] 500 true := rfl
 
-/-- … and the indices differ from then on: after the same calls the shadow copy stands at 150, the
-    stand-alone backtest of the same definition at 100. -/
-theorem ungated_index_differs :
-    ((opAdjust w0U [] 1000 true true).bind (paperUpdates cfgQ runU callsQ none)).map World.price ≠
+/-- **The defect that was repaired** (`C09/index-differs:counting-scheduler-child`).  Stepping the copy with the loop
+    body on every clock date, row 0 included - what `StrategyBase.update` did before the repair - leaves the copy of
+    `runU` at 150 after the dates `[0,1,2,3]`, while the stand-alone backtest of the same definition stands at 100. -/
+theorem unrepaired_stepping_differs :
+    ((opAdjust w0U [] 1000 true true).bind (btLoop cfgQ runU [0, 1, 2, 3])).map World.price ≠
       (btRun cfgQ runU 1000 [0, 1, 2, 3] w0U).map World.price := by
-  have h1 : ((opAdjust w0U [] 1000 true true).bind (P09.paperUpdatesG updQ runU callsQ none)).toOption.map
+  have h1 : ((opAdjust w0U [] 1000 true true).bind (P09.btLoopG updQ runU [0, 1, 2, 3])).toOption.map
       World.price = some 150 := by decide +kernel
   have h2 : (P09.btRunF cfgQ 2 runU 1000 [0, 1, 2, 3] w0U).toOption.map World.price = some 100 := by
     decide +kernel
@@ -425,23 +446,37 @@ theorem ungated_index_differs :
   | error e => rw [hp] at h1; cases h1
   | ok pw =>
     rw [hp] at h1
-    cases ha : P09.paperUpdatesG updQ runU callsQ none pw with
+    cases ha : P09.btLoopG updQ runU [0, 1, 2, 3] pw with
     | error e => simp [ha, Except.toOption, Except.bind] at h1
     | ok a =>
       cases hb : P09.btRunF cfgQ 2 runU 1000 [0, 1, 2, 3] w0U with
       | error e => rw [hb] at h2; cases h2
       | ok b =>
-        rw [P09.btRunF_sound hb, P08.bind_ok, P09.paperUpdatesF_sound (cfg := cfgQ) (f := 2) ha]
+        have ha' : btLoop cfgQ runU [0, 1, 2, 3] pw = .ok a := by
+          rw [P09.btLoop_eq_G]; exact P09.btLoopG_sound (P09.updRootF_Sound cfgQ 2) _ _ _ ha
+        rw [P09.btRunF_sound hb, P08.bind_ok, ha']
         simp only [ha, hb, Except.toOption, Except.bind, Option.map_some, Option.some.injEq] at h1 h2
         intro heq
         simp only [Except.map, Except.ok.injEq] at heq
         rw [h1, h2] at heq
         exact absurd heq (by decide +kernel)
 
+/-- **… and the same instance under the repaired stepping**: after the same calls the shadow copy of `runU` IS the
+    stand-alone backtest of `runU` (main theorem, no hypothesis on `runU`), and both stand at 100. -/
+theorem ungated_index_equal :
+    (opAdjust w0U [] 1000 true true).bind (paperUpdates cfgQ runU callsQ none) = btRun cfgQ runU 1000 [0, 1, 2, 3] w0U ∧
+    (btRun cfgQ runU 1000 [0, 1, 2, 3] w0U).map World.price = .ok 100 := by
+  refine ⟨paper_eq_standalone cfgQ runU 1000 callsQ [1, 2, 3] w0U w0U rfl (by decide) (by decide), ?_⟩
+  have h2 : (P09.btRunF cfgQ 2 runU 1000 [0, 1, 2, 3] w0U).toOption.map World.price = some 100 := by
+    decide +kernel
+  cases hb : P09.btRunF cfgQ 2 runU 1000 [0, 1, 2, 3] w0U with
+  | error e => rw [hb] at h2; cases h2
+  | ok b =>
+    rw [P09.btRunF_sound hb]
+    simp only [hb, Except.toOption, Option.map_some, Option.some.injEq] at h2
+    simp only [Except.map, h2]
+
 /-- same calls, same dates, same capital as in the positive instance of (3) -/
-example : clockDates callsQ none = 0 :: [1, 2, 3] ∧ P08.NoDust cfgQ w0U.root := by
-  refine ⟨by decide, ?_⟩
-  simp only [w0U, P08.noDust_strat, P08.noDust_sec, P08.NoDustL]
-  decide +kernel
+example : clockDates callsQ none = 0 :: [1, 2, 3] ∧ (∀ d ∈ [1, 2, 3], d ≠ 0) := by decide
 
 end Bt.C09
